@@ -1558,6 +1558,40 @@ Proof.
   - cbn [validate_s conv_ok]. intros H. destruct (dyn_enum_accepts _ _ _ H) as [-> _]. apply pv_eqb_refl.
 Qed.
 
+(* Union: the stored value is the conversion by an alternative that no certainly-accepting alternative precedes *)
+Lemma accepts_exact_accepts E a v : accepts_exact E a v = true -> exists w, c_validate E a v = Accept w.
+Proof.
+  destruct a; cbn [accepts_exact]; try discriminate; try (destruct v; try discriminate; intros _; cbn; eauto; fail).
+  - destruct v; try discriminate. intros H. cbn. unfold c_coerce. cbn [coerce_info]. rewrite H. eauto.
+  - destruct v; try discriminate. intros H. cbn. unfold c_coerce. cbn [coerce_info]. rewrite H. eauto.
+  - destruct v; try discriminate. intros H. cbn. unfold c_coerce. cbn [coerce_info]. rewrite H. eauto.
+  - destruct v; try discriminate. cbn. unfold py_prefix. cbn [str_of]. unfold complete_value.
+    destruct (existsb (zlist_eqb s) vals); [eauto|]. cbn [orb].
+    destruct (filter (fun k => is_prefix s k) vals) as [|k [|k' r]]; try discriminate; eauto.
+Qed.
+
+Lemma union_first_lemma E ds v w :
+  forallb wf_desc ds = true -> bool_final E = true ->
+  first_sel (fun _ => true) (fun a => c_validate E a v) ds = Accept w -> union_first E ds v w = true.
+Proof.
+  intros Hwf HB. unfold union_first. induction ds as [|a r IH]; cbn [first_sel]; [discriminate|].
+  cbn in Hwf. apply andb_prop in Hwf as [Ha Hr].
+  destruct (c_validate E a v) as [x| |e] eqn:Hv.
+  - intros H; inversion H; subst. rewrite (documented_conversion_lemma E a v w Ha HB Hv). reflexivity.
+  - intros H. rewrite (IH Hr H). destruct (accepts_exact E a v) eqn:Hx.
+    + destruct (accepts_exact_accepts E a v Hx) as [y Hy]. congruence.
+    + cbn. apply orb_true_r.
+  - discriminate.
+Qed.
+
+Lemma vs_conv1 E c s d v w :
+  wf_desc d = true -> bool_final E = true -> validate_s E c s d v = Accept w -> conv_ok1 E d v w = true.
+Proof.
+  intros Hwf HB Hv. unfold conv_ok1. rewrite (vs_conv E c s d v w Hwf HB Hv). cbn [andb].
+  destruct d; try reflexivity. cbn [validate_s] in Hv. unfold validate in Hv. cbn [c_validate] in Hv.
+  cbn [wf_desc] in Hwf. apply andb_prop in Hwf as [Hwf _]. now apply (union_first_lemma E ds v w).
+Qed.
+
 (* the name-based Range: an accepted value is an int within the bounds the two bound attributes hold NOW, exclusivity
    honoured at both ends; it is int(value) *)
 Lemma dyn_range_in_bounds_lemma E c s lo hi mask v w :
